@@ -258,6 +258,14 @@ basic_dyn_slot_lambda_f<T, S, N>::basic_dyn_slot_lambda_f(std::istream &in,
                     return v;
                   });
 
+  // Every slot must name a column of the matrix (tag() indexes the matrix
+  // with it).
+  if (slot_matrix_.cols() <= 1
+      || std::any_of(slot_class_.begin(), slot_class_.end(),
+                     [this](auto c) { return c >= slot_matrix_.cols(); }))
+    throw exception::data_format(
+      "Wrong dyn_slot_lambda_f slot_class component");
+
   if (!(in >> dataset_size_))
     throw exception::data_format(
       "Cannot read dyn_slot_lambda_f dataset_size component");
